@@ -73,6 +73,45 @@ def ground(R):
     R.samples.append(dict(ground='America/Los_Angeles', id='0x%08x' % cur['America/Los_Angeles'], djb2='0x%08x' % tables.djb2('America/Los_Angeles')))
 
 
+def fresh_sources(R):
+    """the same table facts on freshly compiled sources: the real compiler run (both scopes, arduino target) on a synthetic source
+    whose names sort differently from their C identifiers, and on the synthetic sources of C03"""
+    from . import C03
+    G = R.ground
+    scratch = os.path.join(build.scratch(), 'c11')
+    os.makedirs(scratch, exist_ok=True)
+    here = os.path.dirname(os.path.dirname(os.path.abspath(__file__)))
+    n_tables = 0
+    for label in ('synthetic_ids', 'synthetic', 'synthetic_unsupported'):
+        text = open(os.path.join(here, 'rtc', 'tzsrc', label)).read()
+        indir = os.path.join(scratch, label + '_in')
+        C03.make_input(indir, text)
+        for scope, db in (('basic', 'zonedb'), ('extended', 'zonedbx')):
+            out = os.path.join(scratch, label + '_' + db)
+            rc, log = C03.compile_source(indir, out, scope, 'arduino')
+            if rc != 0:
+                G.append(('compiled %s/%s: compiler runs' % (label, scope), False, log[-300:]))
+                continue
+            t = tables.Tables(db, dir=out)
+            n_tables += 1
+            names = list(t.zones)
+            tag = 'compiled %s/%s' % (label, scope)
+            bad = [n for n in names if t.zones[n]['id'] != tables.djb2(n)]
+            G.append(('%s: zoneId == djb2(name) for all %d zones' % (tag, len(names)), not bad, bad[:5]))
+            ids = [t.zones[n]['id'] for n in names]
+            G.append(('%s: ids pairwise distinct' % tag, len(set(ids)) == len(ids), None))
+            bad = [n for n in names if t.ids_h.get(t.zones[n]['var']) != t.zones[n]['id']]
+            G.append(('%s: published kZoneId constants equal the ids' % tag, not bad and len(t.ids_h) == len(names), bad[:5]))
+            var_to_name = {z['var']: n for n, z in t.zones.items()}
+            reg_names = [var_to_name.get(v) for v in t.registry]
+            G.append(('%s: registry lists every zone exactly once' % tag, None not in reg_names and sorted(reg_names) == sorted(names), None))
+            asc = None not in reg_names and all(a.encode() < b.encode() for a, b in zip(reg_names, reg_names[1:]))
+            G.append(('%s: registry strictly ascending by name (byte order)' % tag, asc, [x for x in reg_names][:12] if not asc else None))
+            bad = [(lv, tv) for lv, tv in t.links.items() if tv not in var_to_name]
+            G.append(('%s: every link (%d) refers to an emitted zone' % (tag, len(t.links)), not bad, bad[:5]))
+    R.samples.append(dict(freshly_compiled_tables=n_tables, source='rtc/tzsrc/synthetic_ids: Etc/GMT+1 / Etc/GMT-1 siblings, punctuation, case'))
+
+
 def refuter(R):
     """Bounded stand-in used only as the refuter: the real hash_name / _detect_hash_collisions in CPython on colliding and
     non-colliding name sets; returns a failing input or None."""
@@ -138,6 +177,7 @@ def run(R):
     if fail:
         R.refutation = dict(case=str(fail))
     ground(R)
+    fresh_sources(R)
     badg = [g for g in R.ground if not g[1]]
     if badg and not R.refutation:
         R.refutation = dict(case='ground obligation over the shipped tables fails', failing=[(g[0], str(g[2])[:300]) for g in badg])
